@@ -320,6 +320,25 @@ Definition transform_meshes (T Tinv : qpt -> qpt) (sb : qbbox) (sw sh : Z) (db :
   let '(d0, _, d2, _) := db in
   add_meshes 40 T Tinv sb sw sh db dw dh off (max_px_err * ((d2 - d0) / inject_Z dw)) [(0, 0, dw, dh)%Z].
 
+(* WMSServer.map with services.wms.bbox_srs: a request that reaches over the extent configured for its SRS is cut
+   down (bbox_position_in_image), only the sub query is rendered and pasted at `offset` into an image of the
+   requested size; the georeference written into the answer (GeoTIFF ModelTiepointTag / ModelPixelScaleTag:
+   GeoReference.tiepoints / pixelscale) is that of the ORIGINAL query: tie point = upper left corner, pixel scale
+   = extent / image size *)
+Definition geotiff_tags (b : qbbox) (w h : Z) : qpt * qpt :=
+  let '(b0, b1, b2, b3) := b in ((b0, b3), ((b2 - b0) / inject_Z w, (b3 - b1) / inject_Z h)).
+Definition wms_map_answer (b : qbbox) (w h : Z) (srs_extent : option qbbox)
+  : (qbbox * (Z * Z) * (Z * Z)) * (qpt * qpt) :=
+  (* ((rendered sub bbox, its size, paste offset), georeference tags of the answer) *)
+  match srs_extent with
+  | None => ((b, (w, h), (0, 0)%Z), geotiff_tags b w h)
+  | Some e =>
+    let '(e0, e1, e2, e3) := e in let '(b0, b1, b2, b3) := b in
+    if Qle_bool e0 b0 && Qle_bool e1 b1 && Qle_bool b2 e2 && Qle_bool b3 e3      (* extent contains the request *)
+    then ((b, (w, h), (0, 0)%Z), geotiff_tags b w h)
+    else let '(sz, off, sub) := bbox_position_in_image b w h e in ((sub, sz, off), geotiff_tags b w h)
+  end.
+
 (* InfoQuery.coord *)
 Definition info_coord (b : qbbox) (w h : Z) (pos : Z * Z) : qpt :=
   lin_transf (img_rect w h) b (inject_Z (fst pos), inject_Z (snd pos)).
